@@ -342,6 +342,10 @@ def stepEffect (st : Store) : List String → Option (Effect × String)
     match g.subsample k with
     | .ok g' => pure (Effect.push g', s!"ok {st.length}")
     | .error e => pure (Effect.keep, showErr e)
+  | ["same", i] => do
+    -- `grid.as_(<its own coordinate system>)`: the identity, by convention the grid itself — no new object
+    let i ← parseNat? i; let _ ← st[i]?
+    pure (Effect.keep, "ok")
   -- queries
   | ["show", i] => do
     let i ← parseNat? i; let g ← st[i]?
@@ -406,9 +410,30 @@ def stepEffect (st : Store) : List String → Option (Effect × String)
     pure (Effect.keep, "ok " ++ ",".intercalate (g.hashInput.map showTok))
   | _ => none
 
-/-- `reset` empties the store; every other request has one `Effect`. -/
+/-- the tokens of a request that name slots of the store (by position, per op) -/
+def slotArgs : List String → List String
+  | "eq" :: i :: j :: _ => [i, j]
+  | "eqnan" :: i :: j :: _ => [i, j]
+  | "eqold" :: i :: j :: _ => [i, j]
+  | op :: i :: _ =>
+    if op ∈ ["set", "copy", "todict", "rtdict", "rtdictas", "scale", "scaled", "shift", "shifted", "shiftf", "shiftedf",
+             "absorbs", "shiftvals", "reverse", "reversed", "reverseold", "rotate", "rotated", "protate", "protated",
+             "mat", "fft", "super", "sub", "show", "points", "wlist", "wlistold", "aspolar", "ascart", "image", "size",
+             "hash", "eqrow", "pshift", "pshifted", "layout", "hashl", "asrt", "same"] then [i] else []
+  | _ => []
+
+/-- does the request name a slot the store does not have?  (The implementation created an object
+the model did not — the two have diverged; the request is answered `err noobj`, it is not malformed.) -/
+def namesMissing (n : Nat) (toks : List String) : Bool :=
+  (slotArgs toks).any fun s => match parseNat? s with
+    | some i => decide (n ≤ i)
+    | none => false
+
+/-- `reset` empties the store; a request that names a slot which does not exist answers `err noobj`
+and changes nothing; every other request has one `Effect`. -/
 def stepStore (st : Store) (toks : List String) : Option (Store × String) :=
   if toks = ["reset"] then some ([], "ok")
+  else if namesMissing st.length toks then some (st, "err noobj")
   else (stepEffect st toks).map fun r => (r.1.apply st, r.2)
 
 /-! ## Caller-owned arrays -/
